@@ -26,7 +26,7 @@ TRUSTED_BASE = ["stubs/gerr.c (WrError/ChkArgCnt count only)",
 ASSUMPTIONS = ["malloc never fails (ifsave_create does not check either)", "nesting depth < 32000 (NestLevel is a 16-bit Integer)",
                "run-level statement follows from the per-statement contracts by the induction in DESIGN.md 3/C12; "
                "dispatch of inactive lines to CodeIFs only (as.c) is assumed"]
-NOT_COVERED = ["Produce_Code dispatch in as.c"]
+NOT_COVERED = ["Produce_Code dispatch in as.c", "FSearch (file search behind IFEXIST)"]
 EXPLANATION = ""
 
 MANIFEST = dict(
@@ -35,7 +35,7 @@ MANIFEST = dict(
          "ENDCASE, RestoreIFs, dispatcher CodeIFs) is verified on the real translation unit against a contract over the abstract state "
          "(IfAsm, top frame): a branch is assembled iff the enclosing level is, no earlier branch was taken and its condition holds; "
          "misplaced statements are errors and change nothing; pops restore the enclosing level. IFB's argument loop is closed by a loop "
-         "contract (unbounded argument count). The run-level statement follows by the induction over statements written in DESIGN.md.",
-    note="Bounded (not counted as proved): CASE value list <= 3 integer/float values, RestoreIFs stack depth <= 2. Trusted: ghost oracles for "
+         "contract (unbounded argument count). IFEXIST/IFNEXIST: quote stripping of the name and found-xor-negate (the file search is an oracle). The run-level statement follows by the induction over statements written in DESIGN.md.",
+    note="Bounded (not counted as proved): CASE value list <= 3 integer/float values, RestoreIFs stack depth <= 2, IFEXIST argument <= 3 characters. Trusted: ghost oracles for "
          "the expression evaluator and symbol table, listing-text stubs, malloc never fails, dispatch of inactive lines to CodeIFs in as.c.",
 )
